@@ -9,7 +9,7 @@ import glob, json, os, re, shutil, subprocess, sys, tempfile, time, xml.etree.El
 from concurrent.futures import ThreadPoolExecutor
 
 HERE = os.path.dirname(os.path.dirname(os.path.abspath(__file__)))
-SEEDED = os.path.join(HERE, "seeded")
+SEEDED = os.path.join(HERE, "benign" if "--benign" in sys.argv else "seeded")      # --benign: behaviour-preserving changes (expected verdict: exit 0)
 PY = "/venv/bin/python"
 
 
@@ -20,7 +20,7 @@ def sh(cmd, **kw):
 def collect(dirs):
     os.makedirs(SEEDED, exist_ok=True)
     for d in dirs:
-        for sub in sorted(glob.glob(os.path.join(d, "C[0-9][0-9]-[0-9]*"))):
+        for sub in sorted(glob.glob(os.path.join(d, "C[0-9][0-9]-[0-9b]*"))):
             name = os.path.basename(sub)
             if not all(os.path.exists(os.path.join(sub, f)) for f in ("patch.diff", "demo.py", "meta.json")):
                 print("incomplete:", sub)
@@ -80,9 +80,10 @@ def confirm(name):
             rc1, out1 = run_demo(wt, os.path.join(d, "demo.py"))
             passed = run_tests(wt)
             missing = sorted(base - passed)
+            benign = "--benign" in sys.argv
             res = {"applies": True, "imports": imp.returncode == 0, "demo_exit_unchanged": rc0, "demo_exit_with_change": rc1, "demo_output_with_change": out1[-600:],
                    "pinned_tests_passing": len(base & passed), "pinned_tests_lost": missing[:10],
-                   "confirmed": imp.returncode == 0 and rc0 == 0 and rc1 != 0 and not missing}
+                   "confirmed": imp.returncode == 0 and rc0 == 0 and ((rc1 == 0) if benign else (rc1 != 0)) and not missing}
     finally:
         drop(root)
     meta["confirmation_by_orchestrator"] = res
@@ -174,10 +175,9 @@ def main():
         report()
         return
     if cmd == "collect":
-        collect(sys.argv[2:])
+        collect([a for a in sys.argv[2:] if not a.startswith("--")])
         return
-    names = sys.argv[2:] or sorted(os.path.basename(p) for p in glob.glob(os.path.join(SEEDED, "C*-*")))
-    names = [n for n in names if not n.startswith("--")]
+    names = [n for n in sys.argv[2:] if not n.startswith("--")] or sorted(os.path.basename(p) for p in glob.glob(os.path.join(SEEDED, "C*-*")))
     tier = "thorough" if "--thorough" in sys.argv else "quick"
     resfile = os.path.join(SEEDED, "RESULTS.json")
     results = json.load(open(resfile)) if os.path.exists(resfile) else {}
@@ -189,7 +189,11 @@ def main():
             for name, out in ex.map(lambda n: detect(n, tier=tier), names):
                 results.setdefault(name, {})[tier] = out
                 caught = any(v["exit"] == 1 for v in out.values())
-                print(name, tier, "CAUGHT" if caught else "missed", {p: (v["exit"], v["violations"]) for p, v in out.items()})
+                if "--benign" in sys.argv:
+                    worst = max(v["exit"] for v in out.values())
+                    print(name, tier, {0: "quiet", 1: "FALSE-ALARM", 2: "undecided", 3: "CRASH"}.get(worst, worst), {p: (v["exit"], v["violations"]) for p, v in out.items()})
+                else:
+                    print(name, tier, "CAUGHT" if caught else "missed", {p: (v["exit"], v["violations"]) for p, v in out.items()})
                 json.dump(results, open(resfile, "w"), indent=1, sort_keys=True)
 
 
